@@ -328,6 +328,25 @@ def merge_rules(run, R):
             run.ok(R, "FragmentSpan::merge merges the fragments with Fragment::merge", where(prog.bodies[fsm]), nontrivial=False)
         else:
             run.bad(R, "fragment-span-merge", where(prog.bodies[fsm]), "FragmentSpan::merge does not call Fragment::merge")
+        # ... and merges exactly when the fragments do: nothing else (a pre-filter on cells, on order, on kind) decides
+        if fm in calls:
+            def atom2(c):
+                if c[0] == "discr" and strip(c[1])[0] == "call" and strip(c[1])[1] == fm and \
+                        [strip(a) for a in strip(c[1])[2]] == [("param", 1, ("fragment",)), ("param", 2, ("fragment",))]:
+                    return "fragments_merge"
+                return None
+
+            def is_some2(r_):
+                r_ = strip(r_)
+                return (r_[2] == "Some") if r_[0] == "agg" and r_[2] in ("Some", "None") else None
+            at, tb = bool_function(prog, fsm, atom2, keep=re.escape(fm) + "$|as_line$|is_line$", result=is_some2, free=True)
+            if at is not None and "fragments_merge" in at and all(v == k[at.index("fragments_merge")] for k, v in tb.items()):
+                run.ok(R, "FragmentSpan::merge returns Some exactly when Fragment::merge(self.fragment, other.fragment) does", where(prog.bodies[fsm]))
+            else:
+                others = [a for a in (at or []) if a != "fragments_merge"]
+                run.bad(R, "fragment-span-merge-extra-condition", where(prog.bodies[fsm]),
+                        "whether two fragment spans are merged is not decided by Fragment::merge alone%s: lines that touch and are collinear can be kept apart (the table lets `_` draw into its neighbour's cell, so cell adjacency is not implied)" % (
+                            " (also depends on %s)" % ", ".join("`%s`" % a.lstrip("?")[:60] for a in others) if others else (": %s" % tb if at is None else "")))
 
 
 def m2_rules(run):
